@@ -33,6 +33,9 @@ CHECKS = {
  "C08": ("stateful property-based testing (proptest) with boundary-relative clock generation: temporal predicates over the executed-message trace and AllHistory snapshots",
          "Exploration: generated period configurations (incl. 1 s) and histories whose clock moves land on -1/0/+1 s of the epoch and unbonding boundaries; release/payment only after the full unbonding period, undelegation only in an unbond strictly after the epoch period (and not skipped), consecutive batch ids, forward-only counters, released entries frozen, undelegated amount equal to the entry's valuation.",
          "DESIGN.md 5 C08"),
+ "C09": ("stateful property-based testing (proptest) with must-succeed probes on cloned worlds and differential fault injection (swap/oracle stubs failing or returning garbage)",
+         "Exploration with fault injection: at sampled states of generated histories (slashed, dust, drained) every holder x token x {1, half, all} is taken through the whole exit (unbond, epoch+1, undelegating unbond, unbonding period, withdraw) on a cloned world and must succeed; every user-path operation is re-executed with failing / garbage swap and oracle stubs and must give the identical result and state.",
+         "DESIGN.md 5 C09"),
 }
 
 PENDING = {}
